@@ -116,8 +116,14 @@ class C06(Prop):
         for fa, link in feats:
             lines.append('feat %s %s' % (fa.aid, link))
 
-        def idx_list():
+        def idx_list(direct=False):
+            # an empty list handed to getOffsetAndCount directly, or to the retrieval functions of a multi-tag without
+            # positions, is undefined behaviour in the pinned code (item 19): such a query is only ever the LAST line
             kind = rnd.choice(['all', 'some', 'dup', 'oob', 'empty', 'one', 'rev'])
+            if kind == 'empty' and (direct or N == 0):
+                kind = 'oob'
+            if N == 0 and kind in ('all', 'some', 'rev'):
+                kind = 'oob'
             if kind == 'all':
                 l = list(range(N))
             elif kind == 'some':
@@ -140,7 +146,7 @@ class C06(Prop):
 
         modes = G.MODES if rnd.random() < 0.5 else [rnd.choice(G.MODES)]
         for m in modes:
-            lines.append('moffcnt 0 %s %s' % (m, idx_list()))
+            lines.append('moffcnt 0 %s %s' % (m, idx_list(True)))
             lines.append('moffcnt1 0 %s %d' % (m, one_idx()))
         for m in modes:
             lines.append('mtagged 0 %s %s' % (m, idx_list()))
@@ -159,6 +165,10 @@ class C06(Prop):
                 lines.append('mfeature1 %d %s %d' % (j, m, one_idx()))
         if rnd.random() < 0.15:
             lines.append('mfeature1 %d %s %d' % (len(feats) + rnd.choice([0, 2]), rnd.choice(G.MODES), one_idx()))
+        if flavour == 'empty' or rnd.random() < 0.04:
+            j = rnd.randrange(0, len(feats)) if feats else 0
+            lines.append(rnd.choice(['moffcnt 0 %s 0' % rnd.choice(G.MODES), 'mtagged 0 %s 0' % rnd.choice(G.MODES),
+                                     'mfeature %d %s 0' % (j, rnd.choice(G.MODES))]))
         lines = [' '.join(x.split()) for x in lines]
         return Case(lines, '%s:%d%s' % (flavour, rank, ''.join(kinds)))
 
@@ -167,7 +177,7 @@ class C06(Prop):
         combos = G.all_kind_combos()
         quick = tier == 'quick'
         per = (16 if quick else 900) * scale
-        flavours = ['std', 'std', 'posonly', 'posonly', 'ext', 'ext', 'pad', 'pad', 'units', 'plain', 'empty', 'inconsistent', 'malformed']
+        flavours = ['std', 'std', 'posonly', 'posonly', 'ext', 'ext', 'pad', 'pad', 'units', 'plain', 'empty', 'inconsistent', 'malformed', 'std', 'ext', 'posonly', 'pad']
         cases = []
         for kinds in combos:
             reps = per * (6 if len(kinds) == 1 else 3 if len(kinds) == 2 else 1)
